@@ -185,11 +185,11 @@ def run(ctx: Ctx):
     for init in ("A", "B"):
         run_mc(ctx, init, 2, col, rng, size=(7, 4, 6) if q else (8, 5, 7))
     for init in ("A", "B", "E"):
-        run_sim(ctx, init, 400 if q else 12000, 30 if init != "E" else 40, col, rng, ctx.seed)
+        run_sim(ctx, init, 400 if q else 3000, 30 if init != "E" else 40, col, rng, ctx.seed)
     from . import c01_c2s
 
-    c01_c2s.random_histories(ctx, col, n=60 if q else 1500, length=120 if q else 300)
-    c01_c2s.traced_passes(ctx, col, max_modules=40 if q else 600)
+    c01_c2s.random_histories(ctx, col, n=60 if q else 400, length=120 if q else 200)
+    c01_c2s.traced_passes(ctx, col, max_modules=40 if q else 300)
     judge(ctx, col)
     ctx.coverage["rule"] = ("every history of <=k public mutator calls from two initial IRs (TLC breadth-first), random walks of the model "
                             "(TLC -simulate), seeded random histories over the wider API, and the repository's passes on corpus modules; "
